@@ -598,7 +598,9 @@ def cfg_list(kind: str) -> list:
     if kind == 'full':
         return [{'pl': pl, 'tp': tp, 'ext': ext, 'decay': d}
                 for pl in ('greedy', 'trivial', 'static') for tp in (1, 2) for ext in (0, 1, 20)
-                for d in (0.0, 0.001)]
+                for d in (0.0, 0.001)] + [{'pl': pl, 'layout': False, 'ext': ext, 'decay': d, 'dri': dri}
+                                          for pl in ('greedy', 'trivial', 'static')
+                                          for (ext, d, dri) in ((20, 0.001, 5), (0, 0.0, 5), (1, 0.5, 1))]
     if kind == 'quick':
         out = []
         for pl in ('greedy', 'trivial', 'static'):
@@ -606,11 +608,14 @@ def cfg_list(kind: str) -> list:
                     {'pl': pl, 'tp': 2, 'ext': 0, 'decay': 0.0},
                     {'pl': pl, 'tp': 1, 'ext': 1, 'decay': 0.5, 'dri': 1}]
         out.append({'pl': 'greedy', 'tp': 2, 'ext': 20, 'decay': 0.001})
+        out.append({'pl': 'greedy', 'layout': False, 'ext': 20, 'decay': 0.001})     # routing without layout
+        out.append({'pl': 'static', 'layout': False, 'ext': 0, 'decay': 0.0})
         return out
     raise AssertionError(kind)
 
 
 LINE4 = [[0, 1], [1, 2], [2, 3]]
+STAR4 = [[0, 3], [1, 3], [2, 3]]
 # edge bits that may be fixed by a shard (all zero still leaves a connected complement)
 SPLIT_IDX = {2: [], 3: [0], 4: [0, 5, 3], 5: [0, 7, 4, 9]}
 
@@ -627,6 +632,8 @@ def obligations(tier: str) -> list[dict]:
         split = 'op0e': both (kind/first qudit of the first operation and one edge bit)."""
         cn = ''.join(map(str, codes))
         nm = 'sabre/n%d/m%d/ops%d/codes%s/%s' % (n, m, nops, cn, cfgs)
+        if 'edges' in kw:
+            nm += '/graph' + ''.join('%d%d' % tuple(e) + '-' for e in kw['edges'])[:-1]
         func = 'route4' if m <= 4 and nops <= 3 else 'route'
         base = dict(n=n, m=m, nops=nops, codes=codes, cfgs=cfg_list(cfgs), **kw)
         if split in ('op0', 'op0e'):
@@ -673,16 +680,18 @@ def obligations(tier: str) -> list[dict]:
     ALL = [1, 2, 3, 4, 5, 6, 7]
     if tier == 'quick':
         Q = 'quick'
-        T = 240
+        T = 600
         fam(2, 2, 2, [1, 2, 5, 7], Q, T)
         fam(2, 4, 2, [1, 2, 5, 7], Q, T)
-        fam(3, 3, 2, ALL, Q, T)
-        fam(3, 3, 3, [2, 3], Q, T, split='op0')
+        fam(3, 3, 2, ALL, Q, T, split=1)
+        fam(3, 3, 3, [2], Q, T)
         fam(3, 4, 1, ALL, Q, T)
-        fam(3, 4, 2, [2, 3, 5, 6, 7], Q, T, split='op0')
+        fam(3, 4, 2, [2, 3, 7], Q, T, split='op0')
         fam(3, 4, 3, [2], Q, T, split='op0')
         fam(4, 4, 1, ALL, Q, T)
         fam(4, 4, 2, [2], Q, T, split='op0')
+        fam(4, 4, 3, [2], Q, T, edges=LINE4)
+        fam(4, 4, 3, [2], Q, T, edges=STAR4)
         esc('routing-fwd/line4/T(0,3)', T, [[2, [0, 3]]], 'routing-fwd', LINE4, fixed=4, witness=True)
         esc('layout-bwd/line4/T(1,2)T(0,3)', T, [[2, [1, 2]], [2, [0, 3]]], 'layout-bwd', LINE4, fixed=4,
             witness=True)
